@@ -8,6 +8,8 @@ Decided clauses:
               branch (np.any/np.all/len-dependent `if`/`while`) and every reduction/scan along the row axis or without axis is
               either an auto-allowed skip-empty-work idiom (`if np.any(m): ...[m]...`, no early exit) or a triaged site
               (function + normalised expression + reason).  A new coupling site is a violation.
+  TWIN        the scalar and the vectorised elliptic-integral routines (chosen by batch size) agree on every branch condition,
+              including on which side a boundary value falls (triaged residual differences listed)
   L2-GROUP    level 2 groups sources by a key and evaluates each group with the function that *is* that key
   L2-PAD      a shorter path is padded with its own last entry (edge padding), for position and orientation alike
 Not decided: the level-2 index arithmetic (tiling order, reshape, collection slices); numeric equality of the scalar and the
@@ -344,10 +346,63 @@ def level2(repo, res):
                             "does not derive from `path[-1]`", st.lineno))
 
 
+# scalar/vectorised twins selected by batch size: their branch conditions must partition the inputs identically
+TWINS = [("special_cel", "cel0", "celv"), ("special_cel", "cel_iter0", "cel_iterv"), ("special_el3", "el30", "el3v")]
+TWIN_TRIAGED = {
+    ("cel0", "celv", "scalar", ("kc", "0", "==")): "scalar version rejects kc == 0 with RuntimeError; the guard is commented out in the vector version and callers mask that edge",
+    ("el30", "el3v", "scalar", ("g", "0", "<")): "scalar version branches on the sign of g where the vector version uses the pre-computed masks bo/box",
+    ("el30", "el3v", "scalar", ("x", "0", ">")): "sign handling of x is done through np.sign-free masks in the vector version",
+    ("el30", "el3v", "scalar", ("z", "0", "<")): "sign handling of z is done through the mask bo10b in the vector version",
+    ("el30", "el3v", "vector", ("pm", "0", "<")): "vector version names the intermediate pm; same test as p1 < 0 on the scalar path",
+    ("el30", "el3v", "vector", ("pm", "0.5", ">")): "vector version names the intermediate pm",
+}
+
+
+def twin_conditions(fn):
+    out = set()
+    for c in ast.walk(fn):
+        if isinstance(c, ast.Compare) and len(c.ops) == 1:
+            def strip(e):
+                t = ast.unparse(e)
+                t = re.sub(r"\[[A-Za-z_0-9]+\]", "", t)
+                t = t.replace("np.abs", "abs").replace("np.fabs", "abs").replace("m.fabs", "abs").replace("math.fabs", "abs")
+                t = re.sub(r"\b(\d+)\.0\b", r"\1", t)
+                return t
+            a, b, op = strip(c.left), strip(c.comparators[0]), c.ops[0]
+            if isinstance(op, (ast.Gt, ast.LtE)):
+                out.add((a, b, ">"))        # {a > b} / {a <= b}: the boundary belongs to the lower side
+            elif isinstance(op, (ast.Lt, ast.GtE)):
+                out.add((a, b, "<"))        # {a < b} / {a >= b}: the boundary belongs to the upper side
+            elif isinstance(op, (ast.Eq, ast.NotEq)):
+                out.add((a, b, "=="))
+    return out
+
+
+def twins(repo, res):
+    n = 0
+    for leaf, a, b in TWINS:
+        m = repo.mods.get(FIELDS + leaf)
+        if m is None or a not in m.funcs or b not in m.funcs:
+            raise AnalysisError(f"anchor vanished: twin pair {leaf}.{a}/{b}")
+        n += 1
+        ca, cb = twin_conditions(m.funcs[a]), twin_conditions(m.funcs[b])
+        diffs = [("scalar", x) for x in sorted(ca - cb)] + [("vector", x) for x in sorted(cb - ca)]
+        new = [(side, x) for side, x in diffs if (a, b, side, x) not in TWIN_TRIAGED]
+        res.ob(f"TWIN:{a}/{b}", not new, {"rule": "TWIN", "pair": f"{a}/{b}", "conditions_scalar": len(ca), "conditions_vector": len(cb),
+                                           "shared": len(ca & cb), "triaged_differences": len(diffs) - len(new), "new_differences": [f"{s}: {x}" for s, x in new]})
+        for side, x in new:
+            fn = m.funcs[a if side == "scalar" else b]
+            res.add(Finding("TWIN", m.rel, f"{a}/{b}", f"{x[0]} {x[2]} {x[1]} only in the {side} version",
+                            "the scalar and the vectorised implementation are selected by batch size; a branch condition that exists in (or "
+                            "places the boundary differently in) only one of them makes a row's value depend on how many rows are in the call", fn.lineno))
+    res.analysed["twin_pairs"] = n
+
+
 def run(repo, res, tier):
-    res.rules = ["RUN-GROUP admission rule", "K1 batch-level branches", "K2 row-axis reductions", "L2-GROUP", "L2-PAD"]
+    res.rules = ["RUN-GROUP admission rule", "K1 batch-level branches", "K2 row-axis reductions", "TWIN scalar/vector branch agreement", "L2-GROUP", "L2-PAD"]
     run_group(repo, res)
     k1_k2(repo, res)
+    twins(repo, res)
     level2(repo, res)
     res.assumptions += ["NumPy elementwise operations, boolean masking and axis=-1/1 reductions do not couple rows",
                         "a batch-level `if np.any(M)` whose body only writes under M (or masks derived from M) is semantically a no-op for an empty selection"]
